@@ -1126,3 +1126,73 @@ Proof.
     assert (Hk : length (skipn p s) = list_sum ps) by (rewrite skipn_length; lia).
     destruct (IH _ Hk) as [H1 H2]. norm. rewrite H1, H2, firstn_skipn, firstn_length. split; [reflexivity|]. f_equal. lia.
 Qed.
+
+(* ====================================================================== J. corollaries: the model returns THE minimiser; warm = cold *)
+Lemma tolerance_zero n : @tolerance ROps 0 n = 0.
+Proof. unfold tolerance. cbn [mul ROps]. apply Rmult_0_l. Qed.
+
+Lemma KKT_nonneg A b d (tau : R) n : wf n A b -> KKT A b d tau -> length d = n /\ forall i, (i < n)%nat -> 0 <= nth i d 0.
+Proof. intros [_ [_ Hb]] [Hl H]. split; [lia|]. intros i Hi. apply H. lia. Qed.
+
+Theorem positive_only_is_minimiser n A b (eps : R) up fuel (d : list R) y :
+  wf n A b -> sym_mat n A -> pos_def n A -> 0 <= eps ->
+  @reconstruction_positive_only_x ROps fuel A b eps up = Ok (d, ExitCond) ->
+  length y = n -> (forall i, (i < n)%nat -> 0 <= nth i y 0) ->
+  objR A b d - @tolerance ROps eps n * sumR y <= objR A b y.
+Proof.
+  intros Hwf Hs Hp He H Hy Hpos.
+  apply (kkt_minimiser n A b d _ y Hwf Hs Hp (tolerance_nonneg eps n He)); auto.
+  exact (positive_only_kkt n A b eps up fuel d Hwf He H).
+Qed.
+
+(* with an exact tolerance the answer does not depend on the warm start: every start that leaves through the loop
+   condition returns the same vector, the unique minimiser *)
+Theorem warm_start_irrelevant n A b pinit1 pinit2 fuel1 fuel2 (d1 d2 : list R) P1 P2 :
+  wf n A b -> sym_mat n A -> pos_def n A ->
+  (forall P0, pinit1 = Some P0 -> length P0 = n) -> (forall P0, pinit2 = Some P0 -> length P0 = n) ->
+  @fnnls ROps fuel1 A b 0 pinit1 = Ok (d1, ExitCond, P1) ->
+  @fnnls ROps fuel2 A b 0 pinit2 = Ok (d2, ExitCond, P2) ->
+  d1 = d2.
+Proof.
+  intros Hwf Hs Hp Hp1 Hp2 H1 H2.
+  pose proof (fnnls_kkt_on_normal_exit n A b 0 pinit1 fuel1 d1 P1 Hwf (Rle_refl 0) Hp1 H1) as K1.
+  pose proof (fnnls_kkt_on_normal_exit n A b 0 pinit2 fuel2 d2 P2 Hwf (Rle_refl 0) Hp2 H2) as K2.
+  rewrite tolerance_zero in K1, K2.
+  destruct (KKT_nonneg A b d1 0 n Hwf K1) as [L1 N1]. destruct (KKT_nonneg A b d2 0 n Hwf K2) as [L2 N2].
+  apply (kkt_unique_minimiser n A b d2 d1 Hwf Hs Hp K2 L1 N1).
+  pose proof (kkt_minimiser n A b d1 0 d2 Hwf Hs Hp (Rle_refl 0) K1 L2 N2). lra.
+Qed.
+
+(* ====================================================================== K. w-tilde: unique mappings = mapping matrix x reconstruction *)
+Lemma unique_row_is_matrix_row (prow : list Z) (wrow s : list R) len :
+  (forall p, (p < len)%nat -> (Z.to_nat (nth p prow 0%Z) < length s)%nat) ->
+  @unique_row ROps prow wrow len s = dotR (@unique_matrix_row ROps prow wrow len (length s)) s.
+Proof.
+  intros Hin. unfold unique_row. cbn [add mul ROps]. unfold zero. cbn [ofZ ROps].
+  rewrite (fold_left_acc (fun p => nth p wrow 0 * nth (Z.to_nat (nth p prow 0%Z)) s 0)). rewrite Rplus_0_l.
+  rewrite dotR_seq by (unfold unique_matrix_row; rewrite map_length, seq_length; reflexivity).
+  unfold unique_matrix_row.
+  transitivity (sumR (map (fun j => sumR (map (fun p => (if Nat.eqb j (Z.to_nat (nth p prow 0%Z)) then nth p wrow 0 * nth j s 0 else 0)) (seq 0 len))) (seq 0 (length s)))).
+  2:{ apply sumR_map_ext. intros j Hj. apply in_seq in Hj. rewrite nth_map_seq by lia. rewrite sumT_sumR.
+      rewrite Rmult_comm, <- sumR_map_scal. apply sumR_map_ext. intros p _. rewrite Nat.eqb_sym.
+      destruct (Nat.eqb _ _); unfold zero; cbn [ofZ ROps]; rewrite ?nthT_R; ring. }
+  rewrite sumR_swap. apply sumR_map_ext. intros p Hp. apply in_seq in Hp.
+  rewrite (sumR_indicator Nat.eqb (fun j => nth p wrow 0 * nth j s 0) (Z.to_nat (nth p prow 0%Z)) (seq 0 (length s))).
+  - assert (E : existsb (fun j => Nat.eqb j (Z.to_nat (nth p prow 0%Z))) (seq 0 (length s)) = true).
+    { apply existsb_exists. exists (Z.to_nat (nth p prow 0%Z)). split; [apply in_seq; specialize (Hin p); lia|apply Nat.eqb_refl]. }
+    rewrite E. reflexivity.
+  - intros x y. apply Nat.eqb_eq.
+  - apply seq_NoDup.
+Qed.
+
+Theorem mapped_via_unique_is_matrix_vector (pix : list (list Z)) (wts : list (list R)) (lens : list nat) (s : list R) :
+  (forall prow wrow len, In (prow, wrow, len) (combine (combine pix wts) lens) ->
+     forall p, (p < len)%nat -> (Z.to_nat (nth p prow 0%Z) < length s)%nat) ->
+  @mapped_via_unique ROps pix wts lens s
+  = map (fun pwl : (list Z * list R) * nat =>
+           dotR (@unique_matrix_row ROps (fst (fst pwl)) (snd (fst pwl)) (snd pwl) (length s)) s)
+        (combine (combine pix wts) lens).
+Proof.
+  intros H. unfold mapped_via_unique. apply map_ext_in. intros [[prow wrow] len] Hin. cbn [fst snd].
+  apply unique_row_is_matrix_row. exact (H prow wrow len Hin).
+Qed.
